@@ -305,6 +305,46 @@ def shard_align(args):
     return part.result()
 
 
+
+def kept_events(evs):
+    """calls against documents that the client keeps alive (slots A, B, C), next to reads of other documents"""
+    by = dict(evs)
+    big, small = by["xml_ok"]["buf"], by["xml_via_fd"]["buf"]
+    xta = by["xta_ok"]["buf"]
+    P = parts()
+    A = {"slot": "A", "model": "big", "ctx": big}
+    B = {"slot": "B", "model": "small", "ctx": small}
+    C = {"slot": "C", "model": "xta", "ctx": xta, "ctxkind": "xta"}
+    A2 = {"slot": "A", "model": "small", "ctx": small}
+    out = [
+        ("query_on_A", dict(A, kind="query_on", text="A[] g1 >= 0")),
+        ("query_on_A_diagnosed", dict(A, kind="query_on", text="E<> g1 == 1 and\n   nosuch > 2")),
+        ("block_on_A", dict(A, kind="block_on", part=P["S_EXPRESSION"], text="g1 + 1", xpath="/nta/queries/x")),
+        ("block_on_A_diagnosed", dict(A, kind="block_on", part=P["S_EXPRESSION"], text="g1 +\n nosuch", xpath="/nta/queries/x")),
+        ("query_on_B", dict(B, kind="query_on", text="E<> i == 1 and P.L0")),
+        ("query_on_B_diagnosed", dict(B, kind="query_on", text="E<> nosuch")),
+        ("query_on_C", dict(C, kind="query_on", text="A[] g1 >= 0")),
+        ("query_on_A_other_model", dict(A2, kind="query_on", text="E<> i == 1")),
+        ("drop_A", {"kind": "drop", "slot": "A"}),
+    ]
+    for name in ("xml_ok", "xml_via_fd", "xta_ok", "xml_syntax_error", "query_ok", "xml_old_syntax"):
+        out.append((name, by[name]))
+    return out
+
+
+def shard_kept(args):
+    evs, ref, seedname, seed, hs = args
+    part = engine.Part()
+    B = 200
+    for i in range(0, len(hs), B):
+        chunk = hs[i:i + B]
+        rs = run_histories(evs, chunk, seed)
+        for h, r in zip(chunk, rs):
+            judge(part, evs, ref, h, seedname, seed, r, "kept-documents")
+            part.add("kept_document_histories", 1)
+    return part.result()
+
+
 def all_histories(n, length):
     hs = [[]]
     for _ in range(length):
@@ -317,16 +357,21 @@ def main():
     evs = events()
     n = len(evs)
     L = 2 if t == "quick" else 3
-    DEPTH = 4 if t == "quick" else 6
+    DEPTH = 3 if t == "quick" else 6
     rep = engine.Report(PID, "model_checking",
                         "explicit-state search over call histories executed on the real library: %d events (XML/XTA/query/block entry "
                         "points; accepted, diagnosed, throwing XMLReaderError/XMLDocError/runtime_error/TypeException, unterminated "
                         "comments, 3.x syntax, client builder aborting inside a comment / an array declarator / a label) from counter "
-                        "seeds %s; all histories of length <= %d unpruned, then BFS to depth %d (second seed in the quick tier: one less) merging histories that leave identical "
+                        "seeds %s; all histories of length <= %d unpruned, then BFS to depth %d merging histories that leave identical "
                         "process-global state (parser statics, flex state, tracker, errno); every call compared with the same call "
-                        "made first in a fresh process.  Alignment sweep of the position counter across 2^31 and 2^32 for every event."
-                        % (n, [s for s, _ in SEEDS] + [WRAP_SEED[0]], L, DEPTH))
+                        "made first in a fresh process.  Alignment sweep of the position counter across 2^31 and 2^32 for every event.  Documents that stay "
+                        "alive between calls: all histories of length <= %d over 15 events (queries and expression blocks, accepted and diagnosed, against "
+                        "three kept documents read from XML and XTA, replacing and dropping a kept document, reads of other documents in between)."
+                        % (n, [s for s, _ in SEEDS] + [WRAP_SEED[0]], L, DEPTH, 3 if t == "quick" else 4))
     rep.set_deadline(240 if t == "quick" else 2400)
+    import time
+    t0 = time.time()
+    phase_s = {}
     ref = reference(evs)
     sizes = {}
     for (name, _), r in zip(evs, ref):
@@ -351,6 +396,7 @@ def main():
     for res in engine.pmap(shard_unpruned, jobs):
         rep.merge(res)
     rep.extra["unpruned_length"] = L
+    phase_s["unpruned"] = round(time.time() - t0, 1)
     for h in (hs_all[n + 5], hs_all[-1]):
         rep.sample({"history": [evs[i][0] for i in h], "first_event": evs[h[0]][1]})
     # (2) BFS on the exact global-state digest
@@ -359,7 +405,7 @@ def main():
     for bi, (seedname, seed) in enumerate(BFS_SEEDS):
         seen = {}
         frontier = [[]]
-        for depth in range(1, (DEPTH if (bi == 0 or t == "thorough") else DEPTH - 1) + 1):
+        for depth in range(1, DEPTH + 1):
             if rep.out_of_time():
                 break
             chunk = max(5, min(400, len(frontier) // (ncpu * 3) + 1))
@@ -378,6 +424,7 @@ def main():
             if not frontier:
                 break
         states_total += len(seen)
+    phase_s["bfs"] = round(time.time() - t0, 1)
     trans_total = int(rep.extra.get("transitions", 0))
     rep.extra["bfs_states"] = states_total
     rep.extra["bfs_depth_completed"] = depth_done
@@ -395,6 +442,26 @@ def main():
     for res in engine.pmap(shard_align, jobs):
         rep.merge(res)
     rep.extra["alignment_step"] = step
+    phase_s["alignment"] = round(time.time() - t0, 1)
+    # (4) documents that stay alive between calls
+    kevs = kept_events(evs)
+    kref = reference(kevs)
+    KL = 3 if t == "quick" else 4
+    khs = []
+    for l in range(1, KL + 1):
+        khs += all_histories(len(kevs), l)
+    jobs = []
+    for seedname, seed in BFS_SEEDS:
+        chunk = max(50, len(khs) // (ncpu * 2) + 1)
+        for i in range(0, len(khs), chunk):
+            jobs.append((kevs, kref, seedname, seed, khs[i:i + chunk]))
+    for res in engine.pmap(shard_kept, jobs):
+        rep.merge(res)
+    rep.extra["kept_document_events"] = [name for name, _ in kevs]
+    rep.extra["kept_document_length"] = KL
+    phase_s["kept"] = round(time.time() - t0, 1)
+    rep.extra["phase_end_s"] = phase_s
+    print("phases end at", phase_s)
     rep.assumptions = ["exception messages are not compared (only the class), as the statement says",
                        "the position counter is seeded directly instead of feeding gigabytes of input",
                        "libxml2's own global state is observed only through results",
